@@ -21,7 +21,7 @@ class AbsSeqs:
                  ordered=ordered, name=base)
         L.memf = memf
         # mem(x) => 0 <= pos(x) < n /\ elem(pos(x)) == x      ;   0 <= i < n => mem(elem(i))
-        L.facts.append(lambda t: z3.Implies(memf(t), z3.And(pos(t) >= 0, pos(t) < n, elem(pos(t)) == t)))
+        L.facts.append(lambda t: z3.Implies(memf(t), z3.And(pos(t) >= 0, pos(t) < n, elem(pos(t)) == t, n >= 1)))
         cname = ek[4:] if ek.startswith('ref:') else None
         if cname:
             st.facts.append((cname, L.facts[0]))
